@@ -1501,3 +1501,22 @@ Example compute_all_may_throw :
   snd (cstep true nowhere_vanishing 2 (fst (run true nowhere_vanishing 2 [PrepareAll [q0101]; Lookup (0, 0, 0, 0)%nat])) (ComputeAll false))
   = OThrows StatusMismatch.
 Proof. vm_compute. reflexivity. Qed.
+
+Example perm_table_complete_hyp : quad_in_range (2, 0, 3, 1)%nat = true /\ quad_distinct (2, 0, 3, 1)%nat = true.
+Proof. split; reflexivity. Qed.
+
+(* every listed quadruple is at least Prepared in the caller's view: bulk preparation, then an element obtained and
+   prepared on demand (its aliases are listed too and count as prepared only once asked for) *)
+Example bulk_compute_succeeds_general_hyp :
+  let ops := [PrepareAll [q0101]; PrepareElem (0, 0, 0, 0)%nat] in
+  (forall k s, qfind k (snd (run true nowhere_vanishing 2 ops)) = Some s -> status_leb Prepared s = true) /\
+  length (snd (run true nowhere_vanishing 2 ops)) = 5%nat.
+Proof.
+  cbv zeta. split; [|vm_compute; reflexivity]. intros k s.
+  assert (E : snd (run true nowhere_vanishing 2 [PrepareAll [q0101]; PrepareElem (0, 0, 0, 0)%nat]) =
+              [((0, 0, 0, 0)%nat, Prepared); ((0, 1, 0, 1)%nat, Prepared); ((0, 1, 1, 0)%nat, Prepared);
+               ((1, 0, 0, 1)%nat, Prepared); ((1, 0, 1, 0)%nat, Prepared)]) by (vm_compute; reflexivity).
+  rewrite E. cbn [qfind].
+  repeat match goal with |- context [quad_eqb ?a ?b] => destruct (quad_eqb a b) end;
+    intros H; inversion H; reflexivity.
+Qed.
